@@ -363,6 +363,9 @@ def _prep(e):
             rep[p] = F_POW(p.base, x)
         elif x.is_Integer and abs(int(x)) > 64:
             rep[p] = F_POW(p.base, x)
+        elif (not x.is_Number) and p.base.is_Rational and p.base.is_positive and not p.base.is_Integer:
+            # (p/q)^x = p^x q^(-x) for positive p, q: one spelling for (1/2)^x and 2^(-x)
+            rep[p] = sp.Pow(sp.Integer(p.base.p), x) * sp.Pow(sp.Integer(p.base.q), -x)
     if rep:
         e = e.xreplace(rep)
     if e.has(sp.oo) or e.has(sp.zoo):
@@ -511,7 +514,7 @@ def equiv_scalar(a, b, name: str = "") -> Outcome:
         za, zb = tr.tr(pa), tr.tr(pb)
     except sym2smt.Unsupported as u:
         return Outcome("undecided", "nf", f"unsupported by sym2smt: {u}", ms(), (a, b))
-    ob, _m = prove(name, tr.facts(), za == zb, timeout_s=SMT_TIMEOUT_S, cover=False)
+    ob, _m = prove(name, tr.facts(), za == zb, timeout_s=SMT_TIMEOUT_S, cover=True)
     if ob.verdict == PROVED:
         return Outcome("proved", ob.backend, "", ms())
     if ob.verdict == REFUTED:
@@ -611,11 +614,7 @@ def witness(a, b, seed: int = 0, tries: int = 40):
 
 
 def str_atom(k) -> str:
-    try:
-        return sp.sstr(k.xreplace({s: sp.Symbol(display_name(s, "code")) for s in k.atoms(sp.Symbol, SymQuantity)
-                                   if display_name(s, "code") != str(s)}))
-    except Exception:
-        return str(k)
+    return show(k)
 
 
 _show_printer = None
@@ -1271,12 +1270,14 @@ class TexReader:
             acc = -acc
         while True:
             tk = self.peek()
-            if tk == "+":
+            if tk in ("+", "-"):
                 self.next()
-                acc = acc + self.term()
-            elif tk == "-":
-                self.next()
-                acc = acc - self.term()
+                sign = 1 if tk == "+" else -1
+                if self.peek() == "-":  # 'a + - b', 'a - - b': a signed term after a binary sign (value is unambiguous)
+                    self.next()
+                    sign = -sign
+                t = self.term()
+                acc = acc + t if sign > 0 else acc - t
             else:
                 return acc
 
@@ -1760,6 +1761,7 @@ class Result:
     out_of_reach: Optional[tuple] = None  # (name, why)
     rendered: str = ""
     trivial: bool = False
+    reads_as: str = ""  # for a disagreement: what the rendering reads as / why it does not read
 
 
 def validate(kind: str, expr, name: str, signature: str, replay_spec: dict) -> Result:
@@ -1769,7 +1771,8 @@ def validate(kind: str, expr, name: str, signature: str, replay_spec: dict) -> R
     ms = lambda: (time.time() - t0) * 1000
 
     def refuted(detail, backend="reader"):
-        return Result(Ob(name, REFUTED, backend, ms(), detail, signature, make_replay(kind, replay_spec)), rendered=s)
+        return Result(Ob(name, REFUTED, backend, ms(), detail, signature, make_replay(kind, replay_spec)), rendered=s,
+                      reads_as=detail)
 
     s = ""
     try:
@@ -1808,7 +1811,7 @@ def validate(kind: str, expr, name: str, signature: str, replay_spec: dict) -> R
         if w:
             detail += f" ; differs at {w[0]}: read={w[1]:.12g} original={w[2]:.12g}"
         ob = Ob(name, REFUTED, out.backend, ms(), detail, signature, make_replay(kind, replay_spec, bool(w) or out.pair is None))
-        return Result(ob, rendered=s)
+        return Result(ob, rendered=s, reads_as=show(canon(rd)))
     return Result(out_of_reach=(name, f"undecided by nf and SMT ({out.backend}: {out.detail[:160]}) | rendering: {s}"),
                   rendered=s)
 
@@ -1924,12 +1927,49 @@ def load_expr(spec: dict):
     raise RuntimeError(f"unknown population {pop}")
 
 
+_ELEMENTARY = (sp.exp, sp.log, sp.sin, sp.cos, sp.tan, sp.cot, sp.sec, sp.csc, sp.asin, sp.acos, sp.atan, sp.acot, sp.atan2,
+               sp.sinh, sp.cosh, sp.tanh, sp.coth, sp.asinh, sp.acosh, sp.atanh, sp.Abs)
+
+
+def in_stated_space(e) -> bool:
+    """Is a canonical (imported) equation inside the expression space the property states for canonical forms:
+    relations over symbols, numbers, rationals, pi/E/I, named quantity constants, + * ^ (roots, quotients) and
+    elementary functions?  Anything else (derivatives, integrals, Piecewise, indexed sums, applied undefined functions,
+    matrices, wrapper symbols, factorial, Bessel, Order, Min/Max, infinities ...) is outside it."""
+    r = R()
+
+    def ok(x):
+        if isinstance(x, Relational):
+            return ok(x.lhs) and ok(x.rhs)
+        if not isinstance(x, sp.Expr) or isinstance(x, sp.MatrixBase):
+            return False
+        if isinstance(x, r["Symbolic"]) or isinstance(x, (sp.Idx, sp.Indexed, sp.IndexedBase)):
+            return False
+        if isinstance(x, sp.Symbol):
+            return type(x) is sp.Symbol or type(x) is r["RSymbol"] or type(x) is sp.Dummy
+        if isinstance(x, SymQuantity):
+            return isinstance(x, r["DimensionSymbol"]) and "QTY" not in x.display_name
+        if x.is_Number:
+            return bool(x.is_Rational or x.is_Float)
+        if x is sp.pi or x is sp.E or x is sp.I:
+            return True
+        if x.is_Atom:
+            return False
+        if x.is_Add or x.is_Mul or x.is_Pow or isinstance(x, _ELEMENTARY):
+            return all(ok(a) for a in x.args)
+        return False
+
+    return ok(e)
+
+
 def run_module(args) -> dict:
     """Worker: validate all renderings (of `kind`) of one catalogue module, both populations."""
-    kind, pid, relpath = args
+    kind, pid, relpath = args[:3]
+    fresh = len(args) > 3 and args[3] == "fresh"  # retry of the canonical form in a process with no import history
     path = REPO / relpath
     mod = module_name(path).removeprefix("symplyphysics.")
-    res = {"obs": [], "oor": [], "programs": 0, "trivial": 0, "counts": {"source": 0, "canonical": 0}, "faults": []}
+    res = {"obs": [], "oor": [], "programs": 0, "trivial": 0, "counts": {"source": 0, "canonical": 0}, "faults": [],
+           "retry": None, "outside": {"validated": 0, "agree": 0, "disagree": [], "not_read": []}}
 
     def one(pop, member, value):
         name = f"{pid}/{mod}.{member}/{'source-form' if pop == 'source' else 'canonical-form'}"
@@ -1938,6 +1978,19 @@ def run_module(args) -> dict:
             r = validate(kind, value, name, f"{mod}.{member}", spec)
         except Exception as ex:  # a reader/engine bug must not pass silently nor hide the other renderings
             res["faults"].append(f"{name}: engine error {type(ex).__name__}: {str(ex)[:200]}")
+            return
+        if pop == "canonical" and not in_stated_space(value):
+            # outside the expression space the property states for canonical forms: an observation, not an obligation
+            o = res["outside"]
+            if r.ob is not None:
+                o["validated"] += 1
+                if r.ob.verdict == PROVED:
+                    o["agree"] += 1
+                else:
+                    o["disagree"].append({"member": f"{mod}.{member}", "rendering": r.rendered,
+                                          "reads_as": r.reads_as[:600], "backend": r.ob.backend})
+            elif r.out_of_reach is not None:
+                o["not_read"].append({"member": f"{mod}.{member}", "why": r.out_of_reach[1][:300]})
             return
         if r.ob is not None:
             res["obs"].append(r.ob)
@@ -1950,9 +2003,16 @@ def run_module(args) -> dict:
     try:
         canon_members = harvest_canonical(path)
     except Exception as ex:
-        res["oor"].append((f"{pid}/{mod}/canonical-form", f"module does not import in this process: {type(ex).__name__}: "
-                                                          f"{str(ex)[:160]}"))
+        if fresh:
+            res["oor"].append((f"{pid}/{mod}/canonical-form", f"module does not import (fresh interpreter): "
+                                                              f"{type(ex).__name__}: {str(ex)[:160]}"))
+        else:
+            res["retry"] = relpath  # import failures can depend on the import history of the worker (symbol numbering)
         canon_members = []
+    if fresh:
+        for nm, val in canon_members:
+            one("canonical", nm, val)
+        return res
     try:
         members = harvest_source(path)
     except Exception as ex:
@@ -2063,8 +2123,9 @@ def run_trees(args) -> dict:
         except Exception:
             res["skipped"] += 1
             continue
-        if e.has(sp.zoo, sp.nan, sp.oo, -sp.oo):
-            res["skipped"] += 1  # not a finite canonical expression
+        if e.has(sp.zoo, sp.nan, sp.oo, -sp.oo) or any(abs(n.p).bit_length() > 2000 or n.q.bit_length() > 2000
+                                                       for n in e.atoms(sp.Rational)):
+            res["skipped"] += 1  # not a finite canonical expression / integers beyond CPython's int->str limit
             continue
         if e in seen:
             res["dups"] += 1
@@ -2088,6 +2149,28 @@ def run_trees(args) -> dict:
     return res
 
 
+def _fresh_canonical(kind, pid, relpaths):
+    """Canonical forms of modules whose import failed inside a pool worker, each retried in a fresh interpreter."""
+    import pickle
+    import subprocess
+    import sys
+    procs = []
+    for rp in relpaths:
+        code = ("import sys, pickle; from vf import tv; "
+                f"r = tv.run_module(({kind!r}, {pid!r}, {rp!r}, 'fresh')); sys.stdout.buffer.write(pickle.dumps(r))")
+        procs.append((rp, subprocess.Popen([sys.executable, "-c", code], stdout=subprocess.PIPE, stderr=subprocess.PIPE,
+                                           cwd=str(Path(__file__).resolve().parent.parent))))
+    out = []
+    for rp, pr in procs:
+        so, se = pr.communicate(timeout=600)
+        try:
+            out.append(pickle.loads(so))
+        except Exception:
+            out.append({"obs": [], "oor": [], "programs": 0, "trivial": 0, "counts": {"source": 0, "canonical": 0},
+                        "faults": [f"fresh-interpreter retry of {rp} failed: {se.decode(errors='replace')[-300:]}"]})
+    return out
+
+
 # ----------------------------------------------------------------------------------------- driver shared by C17 / C18
 def run_property(report, pid: str, kind: str):
     import multiprocessing as mp
@@ -2106,9 +2189,19 @@ def run_property(report, pid: str, kind: str):
         tree_async = pool.map_async(run_trees, tree_tasks, chunksize=1)
         mod_results = mod_async.get()
         tree_results = tree_async.get()
+    retry = sorted(r["retry"] for r in mod_results if r.get("retry"))
+    if retry:
+        mod_results = list(mod_results) + _fresh_canonical(kind, pid, retry)
     counts = {"source": 0, "canonical": 0}
     trivial = 0
+    outside = {"validated": 0, "agree": 0, "disagree": [], "not_read": []}
     for r in mod_results:
+        o = r.get("outside")
+        if o:
+            outside["validated"] += o["validated"]
+            outside["agree"] += o["agree"]
+            outside["disagree"] += o["disagree"]
+            outside["not_read"] += o["not_read"]
         report.extend(r["obs"])
         report.programs += r["programs"]
         trivial += r["trivial"]
@@ -2147,6 +2240,13 @@ def run_property(report, pid: str, kind: str):
         "tree_backends": tback,
         "catalogue_out_of_reach": len(report.out_of_reach) - min(len(toor), 40),
     }
+    outside["disagree"].sort(key=lambda d: d["member"])
+    outside["not_read"].sort(key=lambda d: d["member"])
+    outside["note"] = ("canonical (imported) forms containing nodes outside the expression space the property states for "
+                       "canonical forms (derivatives, integrals, Piecewise, indexed sums/products, applied undefined "
+                       "functions, matrices, wrapper symbols, factorial, Bessel/Hermite, Order, infinities ...): rendered and "
+                       "validated like the others, reported here as observations, never as obligations")
+    report.extra["canonical_outside_stated_space"] = outside
     report.extra["exhaustive"] = False
     report.extra["modules_visited"] = len(files)
     for f in ("printer_code.py" if kind == "code" else "printer_latex.py", "miscellaneous.py", "patch.py", "parse.py"):
